@@ -67,6 +67,14 @@ def _split_number(num, acc):
         acc[0] *= int(num.p)
         acc[1] *= int(num.q)
         return
+    if num.is_Float:
+        # the library types a few prefactors as 0.5: exact binary fractions
+        r = Rational(float(num)).limit_denominator(10**6)
+        if abs(float(r) - float(num)) > 1e-12:
+            raise Unsupported(f"float factor {num!r}")
+        acc[0] *= int(r.p)
+        acc[1] *= int(r.q)
+        return
     if isinstance(num, Pow):
         base, exp = num.args
         if base.is_Rational and exp.is_Rational and exp.q == 2:
